@@ -17,6 +17,8 @@ def to_json(e, q):
         return ["c", q(e[1])]
     if op == "v":
         return ["v", e[1]]
+    if op == "asum":
+        op = "+"
     return [op] + [to_json(a, q) for a in e[1:]]
 
 
@@ -28,6 +30,8 @@ def to_py(e):
     if op == "v":
         return e[1]
     a = [to_py(x) for x in e[1:]]
+    if op == "asum":      # a sum written as a reduction over a stacked array: not element-wise on columns
+        return f"jnp.sum(jnp.array([{a[0]}, {a[1]}]))"
     if op in ("+", "-", "*"):
         return f"({a[0]} {op} {a[1]})"
     if op in ("<", "<=", "=="):
@@ -60,7 +64,7 @@ def ev(e, env):
         return env[e[1]]
     a = [ev(x, env) for x in e[1:]]
     t = lambda x: x != 0  # noqa: E731
-    if op == "+":
+    if op in ("+", "asum"):
         return a[0] + a[1]
     if op == "-":
         return a[0] - a[1]
